@@ -691,7 +691,9 @@ class BasicLexer(AbstractBasicLexer):
             t = None
             if not ignored or type_ in self.callback:
                 t = Token(type_, value, line_ctr.char_pos, line_ctr.line, line_ctr.column)
-            line_ctr.feed(value, type_ in self.newline_types)
+            # Always look for newlines in the matched text: whether a regexp can match a newline
+            # cannot be decided from its source (e.g. \W, \D, [\x00-\x20], DOTALL given as a global flag).
+            line_ctr.feed(value)
             if t is not None:
                 t.end_line = line_ctr.line
                 t.end_column = line_ctr.column
